@@ -285,7 +285,7 @@ def c01_5(ctx, ss):
     ctx.count("functions")
     stmts = list(pf.iter_stmts(ff.node.body))
     steps = {}
-    multi = {"copy": [], "cc": []}
+    multi = {"copy": [], "cc": [], "param": []}
     # 1 parse
     for st in stmts:
         if _self_attr_store(st, "_parsed_dec_file") and isinstance(st.value, ast.Call) and isinstance(st.value.func, ast.Attribute) \
@@ -325,6 +325,7 @@ def c01_5(ctx, ss):
     for st in stmts:
         if isinstance(st, ast.For) and any("DecayModelParamValueReplacement" in txt(c.func) for c in pf.calls_in(st)):
             steps["param"] = st
+            multi["param"].append(st)
             okit = flow.text(st.iter) in ("self._parsed_decays",) or txt(st.iter) == "self._parsed_decays"
             exits = [x for x in ast.walk(st) if isinstance(x, (ast.Break, ast.Continue, ast.Return))]
             visit = [c for c in pf.calls_in(st) if isinstance(c.func, ast.Attribute) and c.func.attr == "visit"]
@@ -362,6 +363,11 @@ def c01_5(ctx, ss):
             if st is steps[n]:
                 continue
             nd = cfg.node_of(st)
+            if n == "param":
+                if not cfg.dominates(nodes["alias"], nd):
+                    ctx.violation("C01.5", ckey(ff, None, "order:alias<param#extra"), where(ff, st),
+                                  "a parameter-replacement pass runs before alias replacement: aliased models are visited in their shared definition, not per use")
+                continue
             if not cfg.dominates(nodes["param"], nd):
                 ctx.violation("C01.5", ckey(ff, None, f"order:param<{n}#extra"), where(ff, st),
                               f"an additional `{n}` step runs before parameter replacement has covered all tables")
